@@ -18,6 +18,9 @@ pub struct Spec {
     pub gen_seed: u64,
     pub sched: SchedKind,
     pub cap: Option<usize>,
+    /// total number of input bits spread over the parties (0 = generator default): exercises the
+    /// random-share batches on the input side
+    pub many_inputs: usize,
 }
 
 pub fn and_class(a: usize) -> &'static str {
@@ -71,7 +74,7 @@ pub fn build_specs(tier: &str, seed: u64) -> Vec<Spec> {
                         _ => SchedKind::RoundRobin,
                     };
                     let cap = match rng.random_range(0..4) { 0 => Some(1), 1 => Some(2), _ => None };
-                    specs.push(Spec { n, p_eval, p_out: p_out.clone(), tmp, ands, gen_seed: rng.random(), sched, cap });
+                    specs.push(Spec { n, p_eval, p_out: p_out.clone(), tmp, ands, gen_seed: rng.random(), sched, cap, many_inputs: 0 });
                 }
             }
         }
@@ -88,8 +91,20 @@ pub fn build_specs(tier: &str, seed: u64) -> Vec<Spec> {
             let all = subsets(n);
             let p_out = all[rng.random_range(0..all.len())].clone();
             let tmp: Vec<bool> = (0..n).map(|_| rng.random_bool(0.5)).collect();
-            specs.push(Spec { n, p_eval, p_out, tmp, ands, gen_seed: rng.random(), sched: SchedKind::RoundRobin, cap: None });
+            specs.push(Spec { n, p_eval, p_out, tmp, ands, gen_seed: rng.random(), sched: SchedKind::RoundRobin, cap: None, many_inputs: 0 });
         }
+    }
+    // many input bits: the random shares of the inputs alone fill one or several batches
+    let mut wide: Vec<(usize, usize, usize)> = vec![(2, 990, 9), (2, 1000, 0), (2, 1500, 5), (3, 1003, 2), (2, 998, 3)];
+    if thorough {
+        wide.extend_from_slice(&[(2, 2500, 11), (4, 1200, 4), (2, 9100, 1), (3, 3000, 1000)]);
+    }
+    for (n, total, ands) in wide {
+        let p_eval = rng.random_range(0..n);
+        let all = subsets(n);
+        let p_out = all[rng.random_range(0..all.len())].clone();
+        let tmp: Vec<bool> = (0..n).map(|_| rng.random_bool(0.5)).collect();
+        specs.push(Spec { n, p_eval, p_out, tmp, ands, gen_seed: rng.random(), sched: SchedKind::RoundRobin, cap: None, many_inputs: total });
     }
     specs
 }
@@ -108,6 +123,18 @@ pub struct CaseOut {
 pub fn gen_for(spec: &Spec) -> (polytune::garble_lang::register_circuit::Circuit, GenCfg, Vec<Vec<bool>>, bool) {
     let mut rng = ChaCha8Rng::seed_from_u64(spec.gen_seed);
     let mut cfg: GenCfg = circ::random_gen_cfg(&mut rng, spec.n, spec.ands);
+    if spec.many_inputs > 0 {
+        // uneven split, one party may have none
+        let mut left = spec.many_inputs;
+        for p in 0..spec.n {
+            let k = if p + 1 == spec.n { left } else { rng.random_range(0..=left.min(spec.many_inputs * 2 / spec.n)) };
+            cfg.inputs[p] = k;
+            left -= k;
+        }
+        cfg.others = 40;
+        cfg.extra_regs = 60;
+        cfg.n_out = 6;
+    }
     if spec.ands > 500 {
         cfg.others = spec.ands / 10;
         cfg.extra_regs = rng.random_range(8..64);
@@ -166,8 +193,8 @@ pub fn run_spec(spec: &Spec) -> CaseOut {
         }
     }
     let key = format!(
-        "n={} E={} O={:?} tmp={} ands={} feat={}",
-        spec.n, spec.p_eval, spec.p_out, bits(&spec.tmp), and_class(spec.ands), cfg.features()
+        "n={} E={} O={:?} tmp={} ands={} inputs={} feat={}",
+        spec.n, spec.p_eval, spec.p_out, bits(&spec.tmp), and_class(spec.ands), if spec.many_inputs > 0 { and_class(spec.many_inputs) } else { "few" }, cfg.features()
     );
     let sample = json!({
         "n": spec.n, "p_eval": spec.p_eval, "p_out": spec.p_out, "tmp_dir": bits(&spec.tmp),
